@@ -335,6 +335,14 @@ func (e *kvElection) attemptAcquire() error {
 
 	rev, err := e.kv.Create(e.key, payloadBytes, opts...)
 	if err != nil {
+		// Stopped while the Create was in flight: issue no further store operations.
+		e.mu.RLock()
+		running := e.running()
+		e.mu.RUnlock()
+		if !running {
+			return err
+		}
+
 		// Key exists - check if we should attempt priority takeover
 		if e.cfg.AllowPriorityTakeover && e.cfg.Priority > 0 {
 			return e.attemptPriorityTakeover(payloadBytes)
@@ -361,13 +369,33 @@ func (e *kvElection) attemptAcquire() error {
 	)
 
 	e.recordAcquireAttempt("success")
-	e.becomeLeader(token, rev)
+	if !e.becomeLeader(token, rev) {
+		return ErrAlreadyStopped
+	}
 	return nil
 }
 
-func (e *kvElection) becomeLeader(token string, rev uint64) {
+// running reports whether the election has been started and not yet stopped.
+// Callers must hold e.mu.
+func (e *kvElection) running() bool {
+	return e.ctx != nil && e.ctx.Err() == nil
+}
+
+// becomeLeader promotes the instance and reports whether it did. It refuses
+// when the election was stopped while the acquiring write was in flight.
+func (e *kvElection) becomeLeader(token string, rev uint64) bool {
 	e.mu.Lock()
 	defer e.mu.Unlock()
+
+	if !e.running() {
+		log := e.getLogger()
+		log.Warn("promotion_refused_election_stopped",
+			append(e.logWithContext(e.ctx),
+				zap.Uint64("revision", rev),
+			)...,
+		)
+		return false
+	}
 
 	fromState := StateInit
 	if s := e.state.Load(); s != nil {
@@ -435,6 +463,7 @@ func (e *kvElection) becomeLeader(token string, rev uint64) {
 			e.onPromote(promoteCtx, token)
 		}()
 	}
+	return true
 }
 
 func (e *kvElection) attemptPriorityTakeover(payloadBytes []byte) error {
@@ -481,7 +510,9 @@ func (e *kvElection) attemptPriorityTakeover(payloadBytes []byte) error {
 
 	e.revision.Store(newRev)
 	e.token.Store(newPayloadStruct.Token)
-	e.becomeLeader(newPayloadStruct.Token, newRev)
+	if !e.becomeLeader(newPayloadStruct.Token, newRev) {
+		return ErrAlreadyStopped
+	}
 	return nil
 }
 
